@@ -69,6 +69,24 @@ func (d *Data) getMemDBbyVersion(v dvid.VersionID) (db *memdb, found bool) {
 	return mdb, true
 }
 
+// getMemDBtoUpdate returns the in-memory db that a mutation at version v has to be applied to,
+// if any.  Besides the db that serves reads at v (getMemDBbyVersion) this is a branch HEAD db
+// that still holds v although v stopped being the HEAD (a new version was made elsewhere on the
+// branch): the db would otherwise miss the mutation when it later follows a child of v.
+func (d *Data) getMemDBtoUpdate(v dvid.VersionID) (db *memdb, found bool) {
+	if db, found = d.getMemDBbyVersion(v); found || d.dbs == nil {
+		return
+	}
+	d.dbs.mu.RLock()
+	defer d.dbs.mu.RUnlock()
+	for _, mdb := range d.dbs.head {
+		if mdb.holds(v) {
+			return mdb, true
+		}
+	}
+	return nil, false
+}
+
 // in-memory neuron annotations with sorted body id list for optional sorted iteration.
 type memdb struct {
 	data       map[uint64]NeuronJSON
@@ -86,6 +104,13 @@ func newMemDB() *memdb {
 		fieldTimes: make(map[string]string),
 		ids:        []uint64{},
 	}
+}
+
+// holds returns true if this branch HEAD db currently holds the content of version v.
+func (mdb *memdb) holds(v dvid.VersionID) bool {
+	mdb.mu.RLock()
+	defer mdb.mu.RUnlock()
+	return mdb.headV != 0 && mdb.headV == v
 }
 
 // follows returns true if this branch HEAD db holds the content of version v: it was loaded
